@@ -8,6 +8,7 @@ import (
 	"fmt"
 	"os"
 	"path/filepath"
+	"runtime"
 	"sort"
 	"strconv"
 	"sync"
@@ -309,4 +310,17 @@ func (r *Run) AddMap(name, key string, n int64) {
 	}
 	cur, _ := toInt(m[key])
 	m[key] = cur + n
+}
+
+// CatchStack is Catch that also returns the goroutine stack of the panic (to name the call site).
+func CatchStack(f func()) (p string) {
+	defer func() {
+		if e := recover(); e != nil {
+			buf := make([]byte, 6000)
+			n := runtime.Stack(buf, false)
+			p = fmt.Sprint(e) + "\n" + string(buf[:n])
+		}
+	}()
+	f()
+	return ""
 }
